@@ -413,3 +413,64 @@ prop(
          "cl_want_* / cc_want_* / position_want_* / *_gray show how many configurations fell in each asserted class or in the gray band.",
     assumptions=["coordinates up to 1e3, radii in [1e-2, 1e3], defining points of a line at least 1 apart, real-valued line pairs at an angle >= 1e-3 rad"],
 )
+
+prop(
+    "C14",
+    level="exploration",
+    technique="adversarial-input and statistical runtime monitors: chosen raw generator outputs fed through the public "
+              "gen_from_u64 (membership, reachability), determinism of seeded streams and copies, permutation census of "
+              "shuffle over seed families with a chi-square bound, exact-period and serial-pair tests of small-range draws",
+    level_text="Exploration with an exhaustive sub-space: every (start, end) pair of u8 and i8 in all five range forms under "
+               "~700 adversarial raw outputs each (0..2*len, multiples of len next to 2^64, 2^64-1-k, 2^53+-k, random) for "
+               "membership and reachability of every value of ranges up to 256 values; boundary ranges (length 1, 2^k, MAX, "
+               "full width, start at MIN, end at MAX) for the eight wider types; half-open float ranges (unit, negative, "
+               "one-ulp, subnormal, +-1e308, whole finite line, random bit patterns) under raw outputs up to 8192 below "
+               "2^64; equal seeds and copies give equal streams; shuffle keeps the multiset and, over 2*10^5 seeds from "
+               "five seed families, reaches all n! arrangements of 2..6 elements with chi-square below the 1-1e-12 "
+               "quantile; draws from ranges of 2..256 values have no exact period <= 2048 and pass a serial-pair chi-square.",
+    level_note="Trusted: the harness PRNG (never rlib_rand) and the Wilson-Hilferty quantile (z = 7.2, +10). Statistical checks "
+               "fail a correct generator with probability ~1e-12 per run. Seed families are sequential, offset, scrambled, "
+               "timestamp-like and strided; families that differ only in the high half of the seed are not demanded "
+               "(the property does not fix the seed distribution). For ..end on signed types only x < end is required.",
+    runs=[
+        dict(engine="randmon", profile="release", args=["--mode", "ranges"], group="ranges"),
+        dict(engine="randmon", profile="release", args=["--mode", "floats"], group="floats"),
+        dict(engine="randmon", profile="release", args=["--mode", "streams"], group="streams"),
+        dict(engine="randmon", profile="dev", args=["--mode", "ranges"], group="ranges", label="randmon/dev/ranges (overflow checks on)"),
+        dict(engine="randmon", profile="dev", args=["--mode", "floats"], group="floats", label="randmon/dev/floats"),
+    ],
+    floor=dict(quick=140_000, thorough=140_000),
+    counter_floors=dict(quick=dict(draws_checked=200_000_000, reachability_checks=400_000, shuffles=4_000_000, serial_draws=400_000,
+                                   float_range_families=16)),
+    rule="one evaluation = one (type, start, end) checked in every applicable range form, one float range, one seed "
+         "(determinism), one shuffle census (n, seed family) or one serial test (range length, seed); distinct_nontrivial = "
+         "distinct non-empty (start<end) integer ranges, float ranges, seeds, censuses and serial tests.",
+    assumptions=["finite float bounds with start < end", "ranges handed to the library are non-empty"],
+)
+
+prop(
+    "C09",
+    level="fault_enumeration",
+    technique="fault-injecting Write sink + conservation hook: scripted partial writes and ErrorKind::Interrupted, expected "
+              "stream = concatenation of std renderings, prefix / exact-after-flush-and-drop / conservation (sink + pending "
+              "= expected, through the hook) monitors; read-back through the real Reader",
+    level_text="Fault enumeration: every buffer fill level BUF-k, k = 0..=64, x 14 kinds of piece (1-byte to 2*BUF+3 bytes, "
+               "every integer width at its longest rendering, tuples, vectors, macros) x 8 sink behaviours (full, 1-byte, "
+               "7-byte, BUF/3, all-but-one accepts, Interrupted densities up to 50 %); every value of the 8- and 16-bit "
+               "integer types and the 10^k / 2^k / MIN / MAX neighbourhoods of the wider ones against std formatting; "
+               "strings around BUF; random sequences of 50-400 pieces against hostile sinks; drop without flush; and the "
+               "produced text read back with the real Reader. Run in release (buffered path) and dev (flush-per-write path).",
+    level_note="Trusted: the scripted sink (never accepts 0 bytes of a non-empty buffer), std Display as the rendering "
+               "reference, the pending-byte hook. The read-back avoids Interrupted and lone CR (C08's subject).",
+    runs=[
+        dict(engine="writemon", profile="release", args=[], group="all"),
+        dict(engine="writemon", profile="dev", args=[], group="all", label="writemon/dev (flush-per-write path)"),
+    ],
+    floor=dict(quick=14_000, thorough=300_000),
+    counter_floors=dict(quick=dict(writes=1_400_000, partial_accepts=50_000_000, interrupted_calls=1_000_000, roundtrip_values=2_000_000,
+                                   fill_levels_at_write_start=70)),
+    rule="one evaluation = one writer lifetime (a sequence of writes against one scripted sink, monitors after every action, "
+         "exact comparison after every flush and after drop); distinct_nontrivial = distinct cases in which the writer handed "
+         "data to the sink during a write call and the sink answered at least one call with a partial accept or Interrupted.",
+    assumptions=["ASCII strings and chars", "the sink never returns Ok(0) for a non-empty buffer and reports no error other than Interrupted"],
+)
